@@ -268,6 +268,69 @@ def reload_cases(run):
             model.deregister_model(model.models_available[key])
 
 
+def reuse_buffer_cases(run):
+    """the caller reuses ONE abscissa array and changes it in place between
+    calls (a contact-point sweep over a preallocated buffer): model() and the
+    default residual must answer for the values the array holds at the time of
+    the call, exactly as for a fresh array with those values"""
+    from nanite import model
+    user = model.register_model(make_module("nv_buf", f_final))
+    try:
+        keys = [k for k in sorted(model.models_available)
+                if getattr(model.models_available[k].module, "__file__",
+                           "").startswith(str(common.REPO))] + ["nv_buf"]
+        for key in keys:
+            md = model.models_available[key]
+            for orient in ("asc", "desc"):
+                base = np.linspace(-1.5e-6, 1e-6, 40)
+                if orient == "desc":
+                    base = base[::-1].copy()
+                buf = base.copy()
+                y = np.linspace(0, 2e-9, 40)
+                p = md.get_parameter_defaults()
+                cfg = {"reused-buffer": key, "orientation": orient}
+                run.case(cfg, kind="reused-buffer")
+                k2 = f"buffer:{key}:{orient}"
+                try:
+                    for shift in (0.0, 3e-7, -2e-7, 7e-7):
+                        np.add(base, shift, out=buf)
+                        p["contact_point"].set(value=1e-7 + shift)
+                        got = np.array(md.model(p, buf), copy=True)
+                        res = np.array(md.residual(p, buf, y, 5e-7),
+                                       copy=True)
+                        # reference: the same values in the other
+                        # orientation on fresh arrays (the wrappers are
+                        # direction agnostic), re-reversed
+                        want = np.asarray(md.model(p, buf[::-1].copy()))[::-1]
+                        wres = np.asarray(md.residual(
+                            p, buf[::-1].copy(), y[::-1].copy(), 5e-7))[::-1]
+                        if got.tobytes() != np.asarray(want).tobytes():
+                            run.failing(
+                                SITE, k2 + "|model", f"{cfg}: model() on a "
+                                f"reused array shifted in place by {shift} "
+                                "differs from model() on a fresh array with "
+                                "the same values (max "
+                                f"{float(np.max(np.abs(got - want))):.3g})",
+                                payload={"kind": "rerun"},
+                                theorem="C13_wrapper_calls_on_seen")
+                            break
+                        if res.tobytes() != np.asarray(wres).tobytes():
+                            run.failing(
+                                SITE, k2 + "|residual", f"{cfg}: residual() "
+                                "on a reused array shifted in place by "
+                                f"{shift} differs from residual() on a fresh "
+                                "array with the same values",
+                                payload={"kind": "rerun"},
+                                theorem="C13_default_residual")
+                            break
+                except BaseException as e:
+                    run.failing(SITE, k2 + "|raised", f"{cfg}: raised "
+                                f"{type(e).__name__}: {e}",
+                                payload={"kind": "rerun"})
+    finally:
+        model.deregister_model(user)
+
+
 def check_laws(run):
     """the structural laws on every registered model, numerically"""
     from nanite import model
@@ -385,6 +448,7 @@ def check(run):
     ]
     check_wrapper(run)
     reload_cases(run)
+    reuse_buffer_cases(run)
     check_laws(run)
     run.rule = ("harness-registered order-sensitive / asserting / ancillary /"
                 " expression models on abscissae of both orientations, sizes "
